@@ -18,6 +18,17 @@ from a816.writers import IPSWriter, SFCWriter, Writer
 logger = logging.getLogger("a816")
 
 
+def _located(node: NodeProtocol, error: Exception) -> Exception:
+    """An error raised while a node is sized or emitted is reported at the statement the node comes from."""
+    if isinstance(error, NodeError):
+        return error
+    for holder in (node, *(getattr(node, name, None) for name in ("value_node", "pc_value_node", "expression"))):
+        file_info = getattr(holder, "file_info", None)
+        if file_info is not None:
+            return NodeError(f"{type(error).__name__}: {error}", file_info)
+    return error
+
+
 class Program:
     def __init__(self, parser: MZParser | None = None, dump_symbols: bool = False):
         self.resolver = Resolver()
@@ -53,7 +64,10 @@ class Program:
 
         for node in program_nodes:
             if not isinstance(node, SymbolNode):
-                previous_pc = node.pc_after(previous_pc)
+                try:
+                    previous_pc = node.pc_after(previous_pc)
+                except Exception as e:
+                    raise _located(node, e) from e
             self.label_pass_addresses.append(previous_pc.logical_value)
 
         self.resolver_reset()
@@ -62,19 +76,25 @@ class Program:
         for node in program_nodes:
             if isinstance(node, LabelNode) or isinstance(node, BinaryNode):
                 continue
-            previous_pc = node.pc_after(previous_pc)
+            try:
+                previous_pc = node.pc_after(previous_pc)
+            except Exception as e:
+                raise _located(node, e) from e
         self.resolver_reset()
 
     def emit(self, program: list[NodeProtocol], writer: Writer) -> None:
         current_block = b""
         current_block_addr = self.resolver.pc
         for index, node in enumerate(program):
-            node_bytes = node.emit(self.resolver.reloc_address)
+            try:
+                node_bytes = node.emit(self.resolver.reloc_address)
 
-            if node_bytes:
-                current_block += node_bytes
-                self.resolver.pc += len(node_bytes)
-                self.resolver.reloc_address += len(node_bytes)
+                if node_bytes:
+                    current_block += node_bytes
+                    self.resolver.pc += len(node_bytes)
+                    self.resolver.reloc_address += len(node_bytes)
+            except Exception as e:
+                raise _located(node, e) from e
 
             if isinstance(node, CodePositionNode):  # or isinstance(node, RelocationAddressNode):
                 if len(current_block) > 0:
